@@ -5,13 +5,13 @@ package stream
 // Verification hooks for property C18 (add-only, compiled only with -tags verif).
 
 // VerifResPublishOne does what one iteration of EventPublisher.Run does when publishCh is
-// readable: it receives exactly one queued batch and hands it to publishEvent. It returns
+// readable: it receives exactly one queued batch and hands it to publishBatch. It returns
 // false (and does nothing) when no batch is queued. Used with a publisher whose Run
 // goroutine is NOT started, so that the commit/publication gap is under the schedule's control.
 func (e *EventPublisher) VerifResPublishOne() bool {
 	select {
 	case update := <-e.publishCh:
-		e.publishEvent(update)
+		e.publishBatch(update)
 		return true
 	default:
 		return false
